@@ -28,7 +28,7 @@ ASSUMPTIONS = ["domain (checked per component by the reference decomposition, no
                "all articulation points are rank-0 nodes of one contig, ids without whitespace and > < ,",
                "orientation = ascending SO of scaffold nodes; with < 2 scaffold nodes ascending min SO of the rank-0 nodes in the end bubbles; "
                "if neither decides both directions are accepted", "any strictly increasing BO sequence is accepted (not only +1 steps)"]
-REQUIRED_PROBES = ("traversal_reversed",)
+REQUIRED_PROBES = ()  # traversal_reversed is a coverage counter tied to a source line; see runner.required_missing
 
 
 def plan(tier):
@@ -47,7 +47,10 @@ def setup(ctx):
     from gaftools import gfa
     from vf.props import c15
     M.attach(gfa.GFA, "biccs", post=c15.post_biccs)
-    M.PROBES.count_text(order_gfa.decompose_and_order, "traversal.reverse()", "traversal_reversed")
+    if hasattr(order_gfa, "decompose_and_order"):
+        M.PROBES.count_text(order_gfa.decompose_and_order, "traversal.reverse()", "traversal_reversed")
+    else:
+        M.PROBES.status["traversal_reversed"] = "unattached"
 
 
 def judge_run(g, run, order, by_chrom, named, infos, viol, sit, who):
